@@ -11,7 +11,7 @@ META = {
     "text": "Tabling (spec/Tabling.tla): the answers of a tabled call are the members of the least fixpoint of the program's "
             "immediate-consequence operator that match the call, computed in TLA+ by iteration over finite sets for left-, right- and "
             "double-recursive path/2 and for mutually recursive even/odd reachability; TLC enumerates every digraph on 3 nodes "
-            "(thorough: plus a seeded sample of 1/41 of the digraphs on 4 nodes) x definition x 6 call patterns (path(X,Y), path(a,Y), "
+            "(thorough: plus a seeded sample of 1/97 of the digraphs on 4 nodes) x definition x 6 call patterns (path(X,Y), path(a,Y), "
             "path(X,a), path(a,b), path(X,X), path(c,c)) in two call orders, checks sanity theorems (all three fixpoints = union of "
             "the powers of the edge relation; parity closure) and, on acyclic graphs, that the untabled program run on the abstract "
             "machine yields the same answer set; each case is replayed with fresh predicate names under a per-query watchdog "
@@ -241,7 +241,25 @@ class DlCase(Prog):
         return "dl|" + ",".join(sorted(fs)) + "|" + self.vec["status"]
 
     def signature(self, d):
-        return "delim query=%s: %s" % (terms.text(self.q), d)
+        tag = "case"
+        q = self.q
+        if q[0] == 'c' and q[1] == 'catch' and q[2][0][0] == 'c' and q[2][0][1] == 'dropthrow' and shifted_catch(q[2][0][2][0]):
+            # input class: an exception is raised after reset/3 returned from a goal that shifted out of a catch/3
+            tag = "throw-after-reset-with-shifted-catch"
+            if d.startswith("log: "):
+                tag += " log-differs"
+        return "delim %s query=%s: %s" % (tag, terms.text(self.q), d)
+
+
+def shifted_catch(t):
+    """does goal t contain catch(G,_,_) with a shift/1 inside G?"""
+    def has_shift(x):
+        return x[0] == 'c' and ((x[1] == 'shift' and len(x[2]) == 1) or any(has_shift(y) for y in x[2]))
+    if t[0] != 'c':
+        return False
+    if t[1] == 'catch' and len(t[2]) == 3 and has_shift(t[2][0]):
+        return True
+    return any(shifted_catch(y) for y in t[2])
 
 
 def dl_steps(cs):
@@ -312,7 +330,7 @@ def run(tier):
     if cap > 0:
         workers = min(workers, cap)
     rep.rule = ("tabling: digraphs on 3 nodes (quick: all 512 for the left-recursive definition in 2 call orders, those with <= 3 or "
-                ">= 8 edges for right/double/mutual; thorough: all 512 x 5 definitions x 2 orders + 1/41 of the digraphs on 4 nodes) x 6 "
+                ">= 8 edges for right/double/mutual; thorough: all 512 x 5 definitions x 2 orders + 1/97 of the digraphs on 4 nodes) x 6 "
                 "call patterns run in sequence on one set of tables; delimited control: 3 generic drivers x bodies of <= 2 items (3 over "
                 "a reduced alphabet) from 16 items, take-k x generator compositions, state handler x command sequences, nested state "
                 "handlers, exceptions through resets. distinct = definition x call pattern x position x sizes, resp. set of constructs x outcome")
